@@ -17,7 +17,7 @@
      set_known bh i p sent         class of a Set: tv p, or the Set is valid, the setter succeeds, the annotation is `true` and
                                    the getter then fails on the new value *)
 From ZV Require Import Base.Bytes C26.Desc C26.Tree C26.Msg C27.Model C28.Model C26.Model.
-From ZV Require Import C28.Spec C26.Facts C28.Proofs C28.History C28.Examples.
+From ZV Require Import C28.Spec C26.Facts C28.Proofs C28.History C28.Registration C28.Examples.
 
 (* The property as stated, kept visible; REFUTED on this tree (three classes, below). *)
 Definition C28_full_statement : Prop :=
@@ -63,6 +63,13 @@ Theorem C28_state_invariant :
   forall (bh : behaviour) (cs : list call) (root : node), state_ok root -> state_ok (run_calls bh root cs).
 Proof. exact history_state. Qed.
 Print Assumptions C28_state_invariant.
+
+(* --- the invariant holds to begin with: every tree built by ObjectServer::at from well-formed instances --- *)
+Theorem C28_registered_states_ok :
+  forall regs : list (list bytes * inst),
+    Forall (fun e => desc_wf (in_desc (snd e)) /\ inst_ok (snd e)) regs -> state_ok (register_all empty_node regs).
+Proof. exact state_ok_registered. Qed.
+Print Assumptions C28_registered_states_ok.
 
 (* --- over ALL histories: after any sequence of calls the next Get / GetAll / Set outside the classes (decided on
        the state reached) is answered as the definitions say --- *)
